@@ -16,15 +16,41 @@ Definition varint (n : Z) : list Z := varint_go 10 n.
 Definition zigzag (z : Z) : Z := if z <? 0 then -2 * z - 1 else 2 * z.
 Definition unzigzag (n : Z) : Z := if n mod 2 =? 0 then n / 2 else -((n + 1) / 2).
 
-Fixpoint varint_dec (fuel : nat) (bs : list Z) : option (Z * list Z) :=
+(* Reading a varint: postcard 1.0.10 src/de/deserializer.rs `try_take_varint_u16/u32/u64`:
+     for i in 0..varint_max::<T>() { val = pop()?; out |= (val & 0x7F) << (7 * i);
+       if val & 0x80 == 0 { if i == varint_max::<T>() - 1 && val > max_of_last_byte::<T>() { Err(BadVarint) } else { Ok(out) } } }
+     Err(BadVarint)
+   i.e. at most `fuel` = varint_max::<T>() bytes; a byte without continuation bit ends the number (padded forms such as
+   [128; 0] are accepted); the LAST permitted byte must have no continuation bit and must not exceed `maxlast` =
+   max_of_last_byte::<T>() (the bits of T that are left for it); running out of input or of fuel is an error. *)
+Fixpoint varint_dec_lim (maxlast : Z) (fuel : nat) (bs : list Z) : option (Z * list Z) :=
   match fuel, bs with
-  | S f, b :: r => if b <? 128 then Some (b, r)
-                   else match varint_dec f r with
+  | S f, b :: r => if b <? 128
+                   then match f with
+                        | O => if b <=? maxlast then Some (b, r) else None
+                        | S _ => Some (b, r)
+                        end
+                   else match varint_dec_lim maxlast f r with
                         | Some (hi, r') => Some ((b - 128) + 128 * hi, r')
                         | None => None
                         end
   | _, _ => None
   end.
+
+(* src/varint.rs: varint_max::<T>() = ceil(bits / 7) bytes, max_of_last_byte::<T>() = (1 << (bits % 7)) - 1.
+   The unsigned type read with `fuel` bytes is the widest whole-byte one that needs them: 3 -> u16, 5 -> u32,
+   10 -> u64 = usize, 19 -> u128 (see `varint_params` below). *)
+Definition varint_bits (fuel : nat) : Z := 8 * (7 * Z.of_nat fuel / 8).
+Definition max_of_last_byte (fuel : nat) : Z := 2 ^ (varint_bits fuel mod 7) - 1.
+
+(* `varint_dec 10` is try_take_varint_u64 (= try_take_varint_usize), `varint_dec 3` is try_take_varint_u16 *)
+Definition varint_dec (fuel : nat) (bs : list Z) : option (Z * list Z) :=
+  varint_dec_lim (max_of_last_byte fuel) fuel bs.
+
+Example varint_params :
+  (varint_bits 3 = 16 /\ max_of_last_byte 3 = 3) /\ (varint_bits 5 = 32 /\ max_of_last_byte 5 = 15) /\
+  (varint_bits 10 = 64 /\ max_of_last_byte 10 = 1) /\ (varint_bits 19 = 128 /\ max_of_last_byte 19 = 3).
+Proof. vm_compute. repeat split. Qed.
 
 Definition pc_i64 (z : Z) : list Z := varint (zigzag z).
 Definition pc_seq {A} (f : A -> list Z) (l : list A) : list Z := varint (zlen l) ++ flat_map f l.
